@@ -165,7 +165,10 @@ func cmdCheck(args []string) int {
 				which = []string{"z3-new"}
 			}
 			var res SolveResult
-			if which == nil {
+			if which == nil && v.knownClause[stripRet(o.Name)] {
+				// a listed finding is expected to stay undischarged: one short attempt (it is discharged if the defect is gone)
+				res = run.pool.solve(q, 8, []string{"z3-new"})
+			} else if which == nil {
 				// z3 5.1 alone first: it decides most obligations in well under a second, and not racing three solvers
 				// on every obligation keeps the machine uncontended for the ones that need the race
 				res = run.pool.solve(q, 8, []string{"z3-new"})
@@ -192,13 +195,17 @@ func cmdCheck(args []string) int {
 	// racing is retried alone with twice the budget (at most four obligations per run) before it is reported.  Never applied to `sat` answers.
 	retried := 0
 	for i, o := range run.obls {
-		if o.Cover || o.Result == nil || o.Result.Status == "unsat" || o.Result.Status == "sat" || o.Goal == "false" || o.Goal == "true" {
+		if o.Cover || o.Result == nil || o.Result.Status == "unsat" || o.Result.Status == "sat" || o.Goal == "false" || o.Goal == "true" || v.knownClause[stripRet(o.Name)] {
 			continue
 		}
 		if retried >= 4 {
 			break
 		}
 		retried++
+		if dd := os.Getenv("GOVC_DEBUG_DIR"); dd != "" {
+			os.MkdirAll(dd, 0o755)
+			os.WriteFile(filepath.Join(dd, sanitize(o.Name)+".smt2"), []byte(queries[i]), 0o644)
+		}
 		res := run.pool.solve(queries[i], 2*run.timeout, nil)
 		if res.Status == "unsat" || res.Status == "sat" {
 			o.Result = &res
